@@ -142,6 +142,13 @@ def make_problem(rng, k, repl_mode=None, flavor="mixed", coeffs=None, pattern=No
                 pos.append(tuple(p))
                 els.append(rng.choice(["Xe", "Ar", "Kr"]))
                 break
+    if all(cell[i][j] == 0 for i in range(3) for j in range(3) if i != j) and all(cell[i][i] > 0 for i in range(3)) and rng.random() < 0.6:
+        # orthorhombic box: bystanders that are stored outside the half-open box [0, L) - just below zero, exactly on an upper face
+        for p in ([-rng.randrange(64, 2048), rng.randrange(0, cell[1][1]), rng.randrange(0, cell[2][2])],
+                  [cell[0][0], rng.randrange(0, cell[1][1]), rng.randrange(0, cell[2][2])]):
+            if all(FG.min_image_dist(cm / G, inv * G, np.array(q, float) / G, np.array(p, float) / G) > 0.9 for q in pos):
+                pos.append(tuple(int(v) for v in p))
+                els.append("Rn")
     S = mk_state(els, pos, cell, rng, "s", coeffs and not cif_like, split_types=True, xlabels=rng.choice([("x",), ("x", "y"), ()]))
     if cif_like:
         S["t_pair"] = []
@@ -176,7 +183,8 @@ def make_problem(rng, k, repl_mode=None, flavor="mixed", coeffs=None, pattern=No
                     seen.append(x)
             tk[kname] = seen
         add_terms(S, rng, "s", coeffs and not cif_like, tk, xl=rng.choice([("ka",), ("ka", "kb"), ()]))
-    return dict(case=c, S=S, search=search, repl=repl, mode=mode, coeffs=coeffs, atol=c["atol"], hints=c["hints"], cif_like=cif_like)
+    return dict(case=c, S=S, search=search, repl=repl, mode=mode, coeffs=coeffs, atol=c["atol"], hints=c["hints"], cif_like=cif_like,
+                empty_keeps_tables=(mode == "empty" and k % 2 == 1))
 
 
 def build_atoms(st, scale=G):
@@ -193,6 +201,11 @@ def run_replace(p, frac, replace_all, ignore, seed):
     from mofun.mofun import AtomsShouldNotBeDeletedTwice
     sc = p.get("scale", G)
     S, search, repl = build_atoms(p["S"], sc), build_atoms(p["search"], sc), build_atoms(p["repl"], sc)
+    if len(p["repl"]["pos"]) == 0 and p.get("empty_keeps_tables"):
+        # an empty replacement that is not a blank Atoms(): a copy of the search pattern with every atom removed (its type tables stay)
+        with AIO.quiet():
+            repl = search.copy()
+            del repl[list(range(len(repl)))]
     before = [AIO.dump(S, sc), AIO.dump(search, sc), AIO.dump(repl, sc) if len(p["repl"]["pos"]) else None]
     kw = {}
     if p["hints"] is not None:
@@ -426,7 +439,8 @@ def compare(p, res, replace_all, ignore, frac, parts=("atoms", "terms", "count")
 
 def problem_json(p):
     return {"case": FG.case_json(p["case"]), "S": p["S"], "search": p["search"], "repl": p["repl"], "mode": p["mode"], "coeffs": p["coeffs"],
-            "atol": [p["atol"].numerator, p["atol"].denominator], "hints": p["hints"], "cif_like": p.get("cif_like", False)}
+            "atol": [p["atol"].numerator, p["atol"].denominator], "hints": p["hints"], "cif_like": p.get("cif_like", False),
+            "empty_keeps_tables": p.get("empty_keeps_tables", False)}
 
 
 def problem_from_json(j):
@@ -439,4 +453,4 @@ def problem_from_json(j):
             st[k]["tup"] = [tuple(t) for t in st[k]["tup"]]
         return st
     return dict(case=FG.case_from_json(j["case"]), S=fix(j["S"]), search=fix(j["search"]), repl=fix(j["repl"]), mode=j["mode"], coeffs=j["coeffs"],
-                atol=Fraction(j["atol"][0], j["atol"][1]), hints=tuple(j["hints"]) if j["hints"] else None, cif_like=j.get("cif_like", False))
+                atol=Fraction(j["atol"][0], j["atol"][1]), hints=tuple(j["hints"]) if j["hints"] else None, cif_like=j.get("cif_like", False), empty_keeps_tables=j.get("empty_keeps_tables", False))
